@@ -3,7 +3,7 @@
 (*                                                                                                *)
 (* Observable state of a session: a sequence of OBJECT records                                    *)
 (*   [id, kind ("raster"|"dataset"), bufs (buffer ids backing it), wr (writable), val (content    *)
-(*    digest, dtype independent), dtype, coords <<name,digest>>.., attrs <<key,digest>>.., dims,  *)
+(*    digest, dtype independent), dtype, coords <<name,digest,ndim>>.., attrs <<key,digest>>.., dims,  *)
 (*    shape, backend, name]                                                                       *)
 (* and for a call its RESULT record (same fields + kind "raster"|"dataset"|"table"|"tuple"|       *)
 (* "scalar"|"none", lazy).  The heap is implicit in `bufs`: two objects alias iff they have a     *)
@@ -92,8 +92,14 @@ InputsUntouched(f, args, P, Q) == FirstBadObj(f, args, P, Q, 1)
 \* ------------------------------------------------------------------ clause 2: no writable memory shared
 ArgObjs(args, Q) == {Obj(Q, args[i]) : i \in {j \in 1..Len(args) : Has(Q, args[j])}}
 
+CShares(a, b) == Range(a.cbufs) \cap Range(b.cbufs) # {}
+
 NoAlias(f, args, Q, r) ==
-  IF r.kind = "none" \/ ~r.wr THEN "ok"
+  IF r.kind = "none" THEN "ok"
+  \* buffers of the non-index coordinates (scalar / auxiliary): a shallow copy of the input shares them
+  ELSE IF r.kind = "raster" /\ f \in Normal \cup MayWiden \cup OwnShape /\ (\E a \in ArgObjs(args, Q) : CShares(r, a))
+       THEN "output_coords_share_writable_memory"
+  ELSE IF ~r.wr THEN "ok"
   ELSE IF f \in ViewOf
        THEN (IF \E i \in 1..Len(args) : i # IdentArg(f) /\ Has(Q, args[i]) /\ Shares(r, Obj(Q, args[i]))
                                         /\ ~Shares(Obj(Q, args[i]), Obj(Q, args[IdentArg(f)]))
@@ -128,8 +134,8 @@ IdentityKept(f, args, P, r) ==
            IF r.dims # a.dims THEN "dims_changed"
            ELSE IF Len(r.shape) # Len(a.shape) \/ \E i \in 1..Len(a.shape) : r.shape[i] > a.shape[i] THEN "shape_changed"
            ELSE IF Keys(r.coords) # Keys(a.coords) THEN "coords_changed"
-           \* coordinates that are not dimensions (scalar coordinates) are kept as they are
-           ELSE IF \E p \in Range(a.coords) : p[1] \notin Range(a.dims) /\ p \notin Range(r.coords) THEN "coords_changed"
+           \* scalar coordinates (ndim 0) are kept as they are; index and auxiliary coordinates are windowed
+           ELSE IF \E p \in Range(a.coords) : p[3] = 0 /\ p \notin Range(r.coords) THEN "coords_changed"
            ELSE IF Range(r.attrs) # Range(a.attrs) THEN "attrs_changed"
            ELSE IF r.backend # a.backend THEN "backend_changed"
            ELSE "ok"
@@ -144,6 +150,8 @@ IdentityKept(f, args, P, r) ==
 CallClause(f, args, P, Q, r) ==
   LET c1 == InputsUntouched(f, args, P, Q) IN
   IF c1 # "ok" THEN c1
+  \* a lazy result is computed twice by the harness: other values the second time = the computation consumed its inputs
+  ELSE IF r.kind # "none" /\ r.val2 # r.val THEN "lazy_result_changes_on_recompute"
   ELSE LET c2 == NoAlias(f, args, Q, r) IN
        IF c2 # "ok" THEN c2 ELSE IdentityKept(f, args, P, r)
 =============================================================================
